@@ -348,6 +348,11 @@ def run(ctx):
                                       "file_library_factory with the file system answered")
     from . import libtables as _lt17
     _lt17.rule_location(ctx, "C17-working-directory", "C17-working-directory")
+    ctx.rule("C17-diagnostic-position", "the LINE:COL a diagnostic prints is a token location: marker tokens after comments of every shape, "
+                                        "CRLF line ends, blank lines and tabs, strings and |identifiers| that span lines are located "
+                                        "just after their last character (whole-lexer runs on six texts)")
+    from . import lexrun as _lr17
+    _lr17.rule_token_locations(ctx, "C17-diagnostic-position")
     ctx.rule("C17-file-text", "the reader is handed the file's text (LF or CRLF line ends, with or without a final newline): table of the "
                               "character stream file_char_stream yields for eleven file texts, the file system answered from the text")
     ioerrors.rule_stream(ctx, "C17-file-text")
